@@ -76,6 +76,7 @@ fn parse(ep: EpId, conn: u64, p: &Packet, bytes: &[u8]) -> Pkt {
         t: ts_us(p.timestamp),
         frames,
         payload_len: bytes.len(),
+        payload_hash: vq_util::fnv(bytes),
         parse_error,
     }
 }
